@@ -128,8 +128,19 @@ func (d *Decorator) DecorateNode(n ast.Node) (dst.Node, error) {
 	if f, ok := n.(*ast.File); ok {
 		fd.file = f
 	}
-	fd.fragment(n)
-	fd.link()
+	if p, ok := n.(*ast.Package); ok {
+		// Each file of a package gets it's own fragment list, so comments and newlines are never
+		// attached to a node in a neighbouring file.
+		for _, f := range p.Files {
+			fd.cursor = 0
+			fd.fragments = nil
+			fd.fragment(f)
+			fd.link()
+		}
+	} else {
+		fd.fragment(n)
+		fd.link()
+	}
 
 	out, err := fd.decorateNode(nil, "", "", "", n)
 	if err != nil {
